@@ -238,3 +238,130 @@ func definesOpaque(f *FuncCFG, n ast.Node, o types.Object) bool {
 	}
 	return false
 }
+
+// ---------------------------------------------------------------------------
+// multimap-merge (generic): a map whose values are slices is a multimap. Merging one multimap into another that
+// outlives the merge (a field, or a local declared outside the loop the merge sits in) must *append* to the list
+// already stored under a key: `maps.Copy(dst, src)` and `for k, v := range src { dst[k] = v }` replace it, so of
+// several contributions for one key only the last survives (statesync: the paths of a node that hangs off the trie
+// more than once; mempool: the transactions naming one conflicting hash).
+func ruleMultimapMerge(c *Ctx, pkgs ...string) {
+	want := map[string]bool{}
+	for _, p := range pkgs {
+		want[p] = true
+	}
+	isMulti := func(t types.Type) bool {
+		if t == nil {
+			return false
+		}
+		m, ok := t.Underlying().(*types.Map)
+		if !ok {
+			return false
+		}
+		_, ok = m.Elem().Underlying().(*types.Slice)
+		return ok
+	}
+	nMerge := 0
+	for _, fd := range c.P.AllFuncDecls() {
+		if !want[pkgRel(fd.Pkg.Types)] || fd.Decl.Body == nil {
+			continue
+		}
+		info := fd.Pkg.TypesInfo
+		// loops enclosing each node
+		var stack []ast.Node
+		var skipLoop ast.Node // the loop that performs the merge itself does not make the destination outlive it
+		outlives := func(dst ast.Expr) bool {
+			// a field / package variable always outlives; a local outlives if some enclosing loop does not contain its declaration
+			id, ok := ast.Unparen(dst).(*ast.Ident)
+			if !ok {
+				return true
+			}
+			o := info.ObjectOf(id)
+			if o == nil {
+				return false
+			}
+			for _, n := range stack {
+				if n == skipLoop {
+					continue
+				}
+				switch n.(type) {
+				case *ast.ForStmt, *ast.RangeStmt:
+					if !(n.Pos() <= o.Pos() && o.Pos() < n.End()) {
+						return true
+					}
+				}
+			}
+			return false
+		}
+		ast.Inspect(fd.Decl.Body, func(n ast.Node) bool {
+			if n == nil {
+				stack = stack[:len(stack)-1]
+				return true
+			}
+			stack = append(stack, n)
+			switch x := n.(type) {
+			case *ast.CallExpr:
+				if f := calleeFunc(info, x); f != nil && f.Pkg() != nil && f.Pkg().Path() == "maps" && f.Name() == "Copy" && len(x.Args) == 2 {
+					if isMulti(info.TypeOf(x.Args[0])) && isMulti(info.TypeOf(x.Args[1])) {
+						nMerge++
+						key := "multimap-merge." + FuncKey(fd.Obj) + ".maps.Copy." + trunc(types.ExprString(x.Args[0]), 30)
+						// outlives: the destination is not created inside the innermost enclosing loop (or there is no loop but it is a field)
+						st := stack
+						stack = stack[:len(stack)-1]
+						ol := outlives(x.Args[0])
+						stack = st
+						if ol {
+							c.Fail(key, c.P.Pos(x.Pos()), fmt.Sprintf("%s merges a multimap with maps.Copy: the list already stored under a key is replaced, not extended", FuncKey(fd.Obj)))
+						} else {
+							c.OK(key, c.P.Pos(x.Pos()), "destination multimap is created for this merge only")
+						}
+					}
+				}
+			case *ast.RangeStmt:
+				// for k, v := range src { dst[k] = ... }
+				if !isMulti(info.TypeOf(x.X)) || x.Key == nil {
+					return true
+				}
+				kid, ok := x.Key.(*ast.Ident)
+				if !ok {
+					return true
+				}
+				kobj := info.ObjectOf(kid)
+				skipLoop = x
+				for _, s := range x.Body.List {
+					as, ok := s.(*ast.AssignStmt)
+					if !ok || len(as.Lhs) != 1 || len(as.Rhs) != 1 {
+						continue
+					}
+					ie, ok := ast.Unparen(as.Lhs[0]).(*ast.IndexExpr)
+					if !ok || !isMulti(info.TypeOf(ie.X)) {
+						continue
+					}
+					if iid, ok := ast.Unparen(ie.Index).(*ast.Ident); !ok || info.ObjectOf(iid) != kobj {
+						continue
+					}
+					nMerge++
+					key := "multimap-merge." + FuncKey(fd.Obj) + ".range." + trunc(types.ExprString(ie.X), 30)
+					// does the stored value derive from the element it replaces?
+					derives := false
+					dstStr := types.ExprString(ie)
+					ast.Inspect(as.Rhs[0], func(y ast.Node) bool {
+						if e, ok := y.(*ast.IndexExpr); ok && types.ExprString(e) == dstStr {
+							derives = true
+						}
+						return true
+					})
+					if derives {
+						c.OK(key, c.P.Pos(as.Pos()), "the merged list extends the one already stored under the key")
+					} else if !outlives(ie.X) {
+						c.OK(key, c.P.Pos(as.Pos()), "destination multimap is created for this merge only")
+					} else {
+						c.Fail(key, c.P.Pos(as.Pos()), fmt.Sprintf("%s merges a multimap key by key with a plain store: the list already stored under a key is replaced, not extended", FuncKey(fd.Obj)))
+					}
+				}
+			}
+			return true
+		})
+	}
+	c.Floor("multimap merges", nMerge, 2)
+}
